@@ -355,7 +355,6 @@ def oracle(ctx, factor, seeds):
 
 
 def replay(ctx, path):
-    import json
-    d = json.load(open(path))
-    print(json.dumps(d, indent=1)[:4000])
-    return 0
+    import sys
+    from harness.common import generic_replay
+    return generic_replay(sys.modules[__name__], ctx, path)
